@@ -188,6 +188,9 @@ def del_case(case):
             return None, {"skipped": True, "stats": {"kind": "del", "skipped": "moma without a reference (model %s)" % wt[0]}}
         raise exc
     ref = None
+    if method == "linear moma" and ref_sol is not None and "sol" in used:
+        # the caller's reference was handed over, yet the implementation computed its own (pfba) reference
+        raise RuntimeError("the reference solution passed as solution= was ignored (pfba was called instead)")
     if method == "linear moma":
         src = ref_sol if ref_sol is not None else used.get("sol")
         if src is None:
